@@ -27,6 +27,7 @@ type c09Op struct {
 	Doc   int    `json:"doc"`
 	Node  int    `json:"node"`
 	Delta int    `json:"delta,omitempty"`
+	Force bool   `json:"force,omitempty"` // resync: rewrite even if nothing changed (regenerate sequences)
 }
 
 type c09Plan struct {
@@ -88,6 +89,32 @@ func c09Generate(seed uint64, tier string, index int) json.RawMessage {
 	if p.Faulty {
 		p.Cfg.MaxFaults = r.Range(1, 5)
 		p.Cfg.FaultPermille = map[string]int{simstore.AltCasMiss: 100, simstore.AltFeedDedup: 100, simstore.AltFeedRedeliver: 120}
+	}
+	if index%8 == 5 {
+		// directed flavour: the gateway's own metadata-only rewrites (CAS re-stamp after a retried write, forced
+		// resync rewrite) on one document, no external writer at all: nothing may ever be imported
+		p.Tasks = nil
+		for t := 0; t < r.Range(1, 2); t++ {
+			var prog []c09Op
+			for i := 0; i < r.Range(3, 7); i++ {
+				op := c09Op{Doc: 0, Node: r.Intn(nn)}
+				switch x := r.Intn(10); {
+				case x < 4:
+					// a write right after the clock moved: a retried write then generates a version ahead of the
+					// CAS the bucket assigns, which the gateway corrects by re-stamping
+					prog = append(prog, c09Op{Kind: "idle", Delta: 1 + r.Intn(3), Doc: 0, Node: op.Node})
+					op.Kind = "put"
+				case x < 7:
+					op.Kind, op.Force = "resync", true
+				default:
+					op.Kind = "get"
+				}
+				prog = append(prog, op)
+			}
+			p.Tasks = append(p.Tasks, prog)
+		}
+		p.Cfg.MaxFaults = r.Range(1, 3)
+		p.Cfg.FaultPermille = map[string]int{simstore.AltCasMiss: 300}
 	}
 	return mustJSON(p)
 }
@@ -257,7 +284,7 @@ func c09Run(env *verifsim.Env, raw json.RawMessage) *verifsim.Violation {
 					rec.End(nil, err)
 				case "resync":
 					rec := t.Begin("resync", id)
-					err := coll.ResyncDocument(ctx, id, nil, oi%2 == 0)
+					err := coll.ResyncDocument(ctx, id, nil, oi%2 == 0 || op.Force)
 					if err == base.ErrUpdateCancel {
 						err = nil
 					}
